@@ -127,7 +127,30 @@ class Minimiser:
         self.evals += 1
         return case, final
 
+    def run_concurrent(self, case):
+        case = copy.deepcopy(case)
+        for k in range(2):
+            for key in ("constants", "units"):
+                cur = case["concurrent"][k]["selection"].get(key)
+                if cur == "ALL":
+                    full = self.ctx.tree.units if key == "units" else self.ctx.tree.constants
+                    case = self.try_one(case, "%s: %s ALL -> explicit" % ("AB"[k], key), lambda c, k=k, key=key, full=full: c["concurrent"][k]["selection"].__setitem__(key, list(full)))
+                if isinstance(case["concurrent"][k]["selection"].get(key), list) and case["concurrent"][k]["selection"][key]:
+                    case = self.ddmin_list(
+                        case,
+                        lambda c, k=k, key=key: c["concurrent"][k]["selection"][key],
+                        lambda c, v, k=k, key=key: (c["concurrent"][k]["selection"].__setitem__(key, v), c)[1],
+                        "%s %s" % ("AB"[k], key),
+                    )
+            case = self.try_one(case, "%s: plain environment" % "AB"[k], lambda c, k=k: c["concurrent"][k]["env"].update({"listdir": {}, "listdir_default": "sorted", "stdout_mode": "block", "stdout_bufsize": 4096}))
+            case = self.try_one(case, "%s: toolchain g++/c++14" % "AB"[k], lambda c, k=k: c["concurrent"][k].__setitem__("toolchain", {"a": ["g++", "c++14"]}))
+        final = self.fails(case)
+        self.evals += 1
+        return case, final
+
     def run(self, case):
+        if "concurrent" in case:
+            return self.run_concurrent(case)
         if "header_alone" in case:  # one header, one toolchain: nothing to shrink
             self.evals += 1
             return copy.deepcopy(case), self.fails(case)
